@@ -21,7 +21,7 @@ EXPLANATION = (
     "byte and both slice bounds agree and equal 255, keys are validated to 0..255, the separator is emitted as (255, 0) "
     "and rejects data; (G2) every item of the input produces at least one header on every path through the encoder "
     "loop; (G3) BLE pairing reassembly extends and decodes the whole buffer on FragmentLast, acknowledges FragmentData "
-    "with 0c 00 and is bounded. Quantifier: all CFG paths / all buffer lengths (by lower bound), not sampled inputs."
+    "with 0c 00 and is bounded. Quantifier: all CFG paths / all buffer lengths (by lower bound), not sampled inputs. Added from a seeded fault: for the decoder written over an index cursor, a parse error for a truncated item is raised only through an outcome that implies missing bytes (a complete item of length 0 at the end of a message is not rejected)."
 )
 TRUSTED = ["bytearray slicing never raises; bytearray.pop(0) raises IndexError only when empty"]
 
